@@ -67,11 +67,73 @@ def as_int_(v, endian):
     return int.from_bytes(bytes(v), "big" if endian == ">" else "little") if isinstance(v, (bytes, bytearray)) else int(v)
 
 
+# constants of the formats, from the specifications (qcow2.txt; VMDK technote 5.0 / QEMU block/vmdk.c for SE-sparse; MS-VHDX 2.5.1.1; VDICore.h;
+# ploop1_image.h) -- not from the repository: (module, cstruct name or None for a module-level name, constant) -> value
+SPEC_CONSTANTS = {
+    "c_qcow2": {("cs", "MIN_CLUSTER_BITS"): 9, ("cs", "MAX_CLUSTER_BITS"): 21, ("cs", "QCOW2_COMPRESSED_SECTOR_SIZE"): 512, ("cs", "QCOW2_COMPRESSION_TYPE_ZLIB"): 0, ("cs", "QCOW2_COMPRESSION_TYPE_ZSTD"): 1,
+                ("cs", "L1E_SIZE"): 8, ("cs", "L2E_SIZE_NORMAL"): 8, ("cs", "L2E_SIZE_EXTENDED"): 16, ("cs", "L1E_OFFSET_MASK"): 0x00FFFFFFFFFFFE00, ("cs", "L2E_OFFSET_MASK"): 0x00FFFFFFFFFFFE00,
+                ("cs", "L2E_COMPRESSED_OFFSET_SIZE_MASK"): 0x3FFFFFFFFFFFFFFF, ("cs", "QCOW_OFLAG_COPIED"): 1 << 63, ("cs", "QCOW_OFLAG_COMPRESSED"): 1 << 62, ("cs", "QCOW_OFLAG_ZERO"): 1,
+                ("cs", "QCOW_EXTL2_SUBCLUSTERS_PER_CLUSTER"): 32, ("cs", "QCOW2_INCOMPAT_DIRTY"): 1, ("cs", "QCOW2_INCOMPAT_CORRUPT"): 2, ("cs", "QCOW2_INCOMPAT_DATA_FILE"): 4,
+                ("cs", "QCOW2_INCOMPAT_COMPRESSION"): 8, ("cs", "QCOW2_INCOMPAT_EXTL2"): 16, ("cs", "QCOW2_EXT_MAGIC_END"): 0, ("cs", "QCOW2_EXT_MAGIC_BACKING_FORMAT"): 0xE2792ACA,
+                ("cs", "QCOW2_EXT_MAGIC_FEATURE_TABLE"): 0x6803F857, ("cs", "QCOW2_EXT_MAGIC_DATA_FILE"): 0x44415441, (None, "QCOW2_MAGIC"): 0x514649FB},
+    "c_vmdk": {("cs", "SPARSE_MAGICNUMBER"): 0x564D444B, ("cs", "SPARSE_GTE_EMPTY"): 0, ("cs", "SPARSE_GD_AT_END"): 0xFFFFFFFFFFFFFFFF, ("cs", "SPARSEFLAG_USE_REDUNDANT"): 2, ("cs", "SPARSEFLAG_COMPRESSED"): 0x10000,
+               ("cs", "SPARSEFLAG_EMBEDDED_LBA"): 0x20000, ("cs", "SPARSE_COMPRESSALGORITHM_DEFLATE"): 1, ("cs", "SESPARSE_CONST_HEADER_MAGIC"): 0xCAFEBABE, ("cs", "SESPARSE_GRAIN_TYPE_MASK"): 0xF000000000000000,
+               ("cs", "SESPARSE_GRAIN_TYPE_UNALLOCATED"): 0, ("cs", "SESPARSE_GRAIN_TYPE_FALLTHROUGH"): 0x1000000000000000, ("cs", "SESPARSE_GRAIN_TYPE_ZERO"): 0x2000000000000000,
+               ("cs", "SESPARSE_GRAIN_TYPE_ALLOCATED"): 0x3000000000000000, ("cs", "GRAIN_MARKER_EOS"): 0, ("cs", "GRAIN_MARKER_GRAIN_TABLE"): 1, ("cs", "GRAIN_MARKER_GRAIN_DIRECTORY"): 2, ("cs", "GRAIN_MARKER_FOOTER"): 3,
+               (None, "SECTOR_SIZE"): 512, (None, "COWD_MAGIC"): b"COWD", (None, "VMDK_MAGIC"): b"KDMV"},
+    "c_vhdx": {("cs", "PAYLOAD_BLOCK_NOT_PRESENT"): 0, ("cs", "PAYLOAD_BLOCK_UNDEFINED"): 1, ("cs", "PAYLOAD_BLOCK_ZERO"): 2, ("cs", "PAYLOAD_BLOCK_UNMAPPED"): 3, ("cs", "PAYLOAD_BLOCK_FULLY_PRESENT"): 6,
+               ("cs", "PAYLOAD_BLOCK_PARTIALLY_PRESENT"): 7, ("cs", "SB_BLOCK_NOT_PRESENT"): 0, ("cs", "SB_BLOCK_PRESENT"): 6, (None, "MB"): 1 << 20, (None, "ALIGNMENT"): 65536,
+               (None, "BAT_REGION_GUID"): "2dc27766-f623-4200-9d64-115e9bfd4a08", (None, "METADATA_REGION_GUID"): "8b7ca206-4790-4b9a-b8fe-575f050f886e", (None, "FILE_PARAMETERS_GUID"): "caa16737-fa36-4d43-b3b6-33f0aa44e76b",
+               (None, "VIRTUAL_DISK_SIZE_GUID"): "2fa54224-cd1b-4876-b211-5dbed83bf4b8", (None, "VIRTUAL_DISK_ID_GUID"): "beca12ab-b2e6-4523-93ef-c309e000c746", (None, "LOGICAL_SECTOR_SIZE_GUID"): "8141bf1d-a96f-4709-ba47-f233a8faab5f",
+               (None, "PHYSICAL_SECTOR_SIZE_GUID"): "cda348c7-445d-4471-9cc9-e9885251c556", (None, "PARENT_LOCATOR_GUID"): "a8d35f2d-b30b-454d-abf7-d3d84834ab0c", (None, "VHDX_PARENT_LOCATOR_GUID"): "b04aefb7-d19e-4a81-b789-25b8e9445913"},
+    "c_vhd": {(None, "SECTOR_SIZE"): 512},
+    "c_vdi": {(None, "VDI_SIGNATURE"): 0xBEDA107F, (None, "UNALLOCATED"): -1, (None, "SPARSE"): -2},
+    "c_hdd": {("cs", "SIGNATURE_STRUCTURED_DISK_V1"): b"WithoutFreeSpace", ("cs", "SIGNATURE_STRUCTURED_DISK_V2"): b"WithouFreSpacExt", ("cs", "SIGNATURE_DISK_IN_USE"): 0x746F6E59, ("cs", "SECTOR_LOG"): 9, (None, "SECTOR_SIZE"): 512},
+}
+
+
+def check_constants(rep, pid):
+    """every constant of the definition modules that the read paths use has the value the format specification gives it"""
+    only = LAYOUT_PROPS.get(pid)
+    n = 0
+    for cname, table in SPEC_CONSTANTS.items():
+        if only is not None and cname not in only:
+            continue
+        name = f"constants:{cname}"
+        why = []
+        try:
+            mod = importlib.import_module("dissect.hypervisor.disk." + cname)
+            cs = getattr(mod, cname)
+            for (where, const), want in table.items():
+                have = getattr(cs if where == "cs" else mod, const, None)
+                if have is None and where == "cs":
+                    have = getattr(cs, "consts", {}).get(const)
+                norm = str(have).lower() if isinstance(want, str) else (bytes(have) if isinstance(want, bytes) and have is not None else have)
+                n += 1
+                if norm != want:
+                    why.append(f"{const} is {have!r}, specified {want!r}" if not isinstance(want, int) or not isinstance(have, int) else f"{const} is {have:#x}, specified {want:#x}")
+        except (ImportError, AttributeError, TypeError, ValueError) as e:
+            why.append(f"constants cannot be read: {type(e).__name__}: {e}")
+        rep.obligations[name] = {"verdict": "discharged" if not why else "undischarged", "atoms": len(table), "ms": 0, "backends": {"probe"}, "stages": set(), "line": 0, "props": [pid]}
+        if why:
+            r = replay(rep, name, None)
+            p = driver.write_replay(pid, name, {"property": pid, "obligation": name, "verifier_output": "; ".join(why[:8]), **({"replayed": r["record"]} if r else {})})
+            rep.violations.append((p, f"{name}: " + "; ".join(why[:3]) + (f" -- replayed: {r['text']}" if r else ""), r is None))
+    rep.functions.append({"function": (", ".join(x + ".py" for x in only) if only else "c_*.py") + " (constants)", "contract": f"{n} masks, flags, states, magics and sizes equal the specification", "props": [pid]})
+
+
+LAYOUT_PROPS = {"C01": ("c_qcow2",), "C02": ("c_vmdk",), "C03": ("c_vhdx",), "C04": ("c_vhd",), "C05": ("c_vdi",), "C06": ("c_hdd",), "C07": ("c_vhdx", "c_vdi", "c_hdd", "c_vmdk", "c_qcow2"),
+                "C13": ("c_qcow2", "c_vmdk", "c_vhdx", "c_vhd", "c_vdi", "c_hdd"), "C14": None}
+
+
 def check_layouts(rep, pid):
     """each specified field, written alone into an otherwise zero buffer, is what the real structure reports for that field -- for two
     distinctive values -- and every other specified field then reads zero"""
     n_fields = 0
+    only = LAYOUT_PROPS.get(pid)
     for (modname, cname, sname), (endian, total, fields) in SPEC_LAYOUTS.items():
+        if only is not None and cname not in only:
+            continue
         name = f"layout:{cname}.{sname}"
         why = []
         try:
@@ -95,6 +157,17 @@ def check_layouts(rep, pid):
                     for other, o2, w2 in fields:
                         if other != fname and (o2 + w2 <= off or o2 >= off + width) and as_int_(getattr(obj, other), endian) != 0:
                             why.append(f"{other} is affected by the bytes of {fname}")
+                    # the field depends on its own bytes only: same value when every other byte of the structure is 0xFF (a field that
+                    # is wider than specified, or overlaps a neighbour, reads those bytes too)
+                    buf = bytearray(b"\xff" * max(size, off + width))
+                    buf[off:off + width] = val.to_bytes(width, "big" if endian == ">" else "little")
+                    try:
+                        got = as_int_(getattr(T(bytes(buf)), fname), endian)
+                    except Exception as e:  # noqa: BLE001 -- e.g. an enum-typed neighbour that rejects 0xFF..: not a statement about this field
+                        got = val
+                    if got != val:
+                        why.append(f"{fname}: bytes {off}..{off + width} hold {val:#x} and all other bytes 0xFF, the structure reports {got:#x} (the field reads bytes outside {off}..{off + width})")
+                        break
                 n_fields += 1
             for fname, off, width in bfields:
                 buf = bytearray(size)
@@ -106,12 +179,13 @@ def check_layouts(rep, pid):
                 n_fields += 1
         except (AttributeError, ImportError, EOFError, TypeError, ValueError) as e:
             why.append(f"structure cannot be probed: {type(e).__name__}: {e}")
-        rep.obligations[name] = {"verdict": "discharged" if not why else "undischarged", "atoms": len(fields), "ms": 0, "backends": {"probe"}, "stages": set(), "line": 0, "props": ["C14"]}
+        rep.obligations[name] = {"verdict": "discharged" if not why else "undischarged", "atoms": len(fields), "ms": 0, "backends": {"probe"}, "stages": set(), "line": 0, "props": [pid]}
         if why:
             r = replay(rep, name, None)
             p = driver.write_replay(pid, name, {"property": pid, "obligation": name, "verifier_output": "; ".join(why[:6]), **({"replayed": r["record"]} if r else {})})
             rep.violations.append((p, f"{name}: " + "; ".join(why[:3]) + (f" -- replayed: {r['text']}" if r else ""), r is None))
-    rep.functions.append({"function": "c_qcow2.py, c_vhdx.py, c_vhd.py, c_vdi.py, c_hdd.py, c_vmdk.py (17 structures)", "contract": f"{n_fields} exposed fields at the specified offset/width/byte order", "props": ["C14"]})
+    rep.functions.append({"function": (", ".join(x + ".py" for x in only) if only else "c_qcow2.py, c_vhdx.py, c_vhd.py, c_vdi.py, c_hdd.py, c_vmdk.py") + " (structure layouts)",
+                          "contract": f"{n_fields} fields at the specified offset/width/byte order, each depending on its own bytes only", "props": [pid]})
 
 
 # ---------------------------------------------------------------------------------------------- (2a) QCow2Snapshot.__init__
@@ -610,8 +684,13 @@ def FuncRef_(name):
 
 def extra_checks(rep, pid, ledger, known):
     if pid != "C14":
-        return  # other properties use only the exposure contracts of this module (selected through their props)
-    for fn in (check_layouts, check_read_extensions, check_vhdx, check_vmdk, check_hdd_xml):
+        # other properties use the exposure contracts of this module (selected through their props) and the layout obligations of the
+        # structures their format is parsed with: a field that moved or changed width changes what the read path computes from it
+        if pid in LAYOUT_PROPS:
+            check_layouts(rep, pid)
+            check_constants(rep, pid)
+        return
+    for fn in (check_layouts, check_constants, check_read_extensions, check_vhdx, check_vmdk, check_hdd_xml):
         try:
             fn(rep, pid)
         except (Unsupported, StopIteration) as e:
